@@ -2,14 +2,16 @@
    projection round trips and "the crossing lies on both geodesics" are implementation-side
    tests (no model of Karney's solver exists here). *)
 From Coq Require Import List NArith Bool.
-From TT Require Import Base.Verdict Geo.Plane.
+From Coq Require Import ZArith.
+From TT Require Import Base.Verdict Base.F64 Geo.Heading.
 Import ListNotations.
-Record case := mkCase { c_sa1 : bool; c_sa2 : bool; c_sb1 : bool; c_sb2 : bool; c_err : bool;
+Record case := mkCase { c_a1 : Z; c_a2 : Z; c_b1 : Z; c_b2 : Z;   (* the four azimuths IntersectExt reports, as bits *)
+                        c_err : bool;
                         c_inside_expected : nat;   (* 0 outside, 1 inside both, 2 not applicable *)
                         c_checks : list (list N * bool);
                         c_sincos45 : bool  (* the input hands the geodesic dependency an angle of exactly 45 + 180k degrees: class of known finding D24 *) }.
 Definition check_case (c : case) : verdict :=
-  let model_ok := bounded_ok (c_sa1 c) (c_sa2 c) (c_sb1 c) (c_sb2 c) in
+  let model_ok := bounded_ok (c_a1 c) (c_a2 c) (c_b1 c) (c_b2 c) in
   let tests := forallb snd (c_checks c) in
   let geo := match c_inside_expected c with
              | 0%nat => c_err c
